@@ -4,6 +4,7 @@ import (
 	"encoding/hex"
 	"encoding/json"
 	"os"
+	"runtime/debug"
 
 	"verifharness/drv"
 	"verifharness/ref"
@@ -15,6 +16,9 @@ func FuzzOne(prop string, b []byte, t byte) string {
 	c := drv.NewCtx(prop, "thorough", 0, "fuzz", 0, 1, "")
 	cs := &drv.Case{C: c, Stage: "native-fuzz", Idx: 0, R: drv.NewRand(int64(len(b))*131 + int64(t))}
 	cs.Desc = M{"input_hex": hexOf(b), "type": t}
+	// the fuzzing engine runs every input on a goroutine of its own, and fault recovery is a per-goroutine
+	// setting: without it a guard-page fault would kill the fuzz worker instead of being reported
+	defer debug.SetPanicOnFault(debug.SetPanicOnFault(true))
 	func() {
 		defer func() {
 			if r := recover(); r != nil {
